@@ -139,7 +139,11 @@ def run(ctx):
         r3.violation("get_credentials_hash:items", "the digest is computed over %s, the items are %s: two configurations that differ only in a missing item share "
                      "one cached context" % (fed, item_params), loc=gh.file)
     # failure of any item fails the digest
-    hf = P.fn("do_hash_file")
+    # the file hasher is found by role: the function of the store that stats the file and feeds the digest
+    hfs = [f for f in P.fns_in(gh.file.split("/")[-1]) if any(f.nodes[c].get("callee") in ("stat", "lstat") for c in f.calls()) and any(True for _ in f.calls("EVP_DigestUpdate"))]
+    if len(hfs) != 1:
+        raise Broken("C18.R3: file hasher not found (%s)" % [f.name for f in hfs])
+    hf = hfs[0]
     r3.instance(hf.qname)
     need = {"st_dev", "st_ino", "st_size", "tv_sec", "tv_nsec"}
     got = set()
@@ -157,7 +161,7 @@ def run(ctx):
     if got == need and path_fed and follows and uses_lstat:
         r3.ok("a file contributes its path, device, inode, size and modification time (s, ns); a symlink also its target's", "argument coverage")
     else:
-        r3.violation("do_hash_file:fields", "file digest lacks %s (path fed=%s, symlink followed=%s): a replaced file could be served from a stale cached context"
+        r3.violation("%s:fields" % hf.name, "file digest lacks %s (path fed=%s, symlink followed=%s): a replaced file could be served from a stale cached context"
                      % (sorted(need - got), path_fed, follows and uses_lstat), loc=hf.file)
     hi = P.fn("hash_item")
     r3.instance(hi.qname)
@@ -353,6 +357,38 @@ def run(ctx):
                         if m["k"] == "bin" and m["op"] == "=" and g.show(m["l"]) == "errno" and C.const_of(g, m["r"]) == EPROTO:
                             sets = True
         callers_set.append((g, sets))
+    # mismatching material: a context is handed out only after certificate and key were checked against each other
+    lc = P.fn("load_ssl_ctx")
+    r7.instance("%s: key/certificate consistency" % lc.qname)
+    bad_chk = []
+    nok = [0]
+
+    class Chk(S.SeqRule):
+        def user0(s2, fn):
+            return None
+
+        def inline(s2, fn, nid, callee):
+            return False
+
+        def on_call(s2, fn, st, nid, callees, exts):
+            if "SSL_CTX_check_private_key" in exts:
+                return nid
+            return None
+
+        def on_exit(s2, fn, st, ret_nid, ret_cls, top):
+            if top and ret_cls in (S.NONZERO, S.POS, None) and ret_nid is not None and C.const_of(fn, fn.nodes[ret_nid]["sub"]) != 0:
+                nok[0] += 1
+                c = st.user
+                if c is None or st.get(("call", c)) not in (S.POS,):
+                    bad_chk.append(ret_nid)
+    S.run(Chk(P), lc, max_states=2000000)
+    if nok[0] < 1:
+        raise Broken("C18.R7: no successful exit of load_ssl_ctx explored")
+    if bad_chk:
+        r7.violation("load_ssl_ctx:no-consistency-check", "load_ssl_ctx hands out a context on a path where SSL_CTX_check_private_key has not succeeded: a certificate and a "
+                     "key that do not belong together (e.g. different algorithms) are accepted and cached instead of failing with EPROTO", loc=lc.loc(bad_chk[0]))
+    else:
+        r7.ok("a context is returned only after SSL_CTX_check_private_key() == 1", "path exploration")
     if not bad7:
         r7.ok("every failing exit of ctx_store_get_ctx has errno == EPROTO established on its path", "errno facts with load_ssl_ctx inlined")
     else:
